@@ -278,6 +278,61 @@ def check_maps(it, prog, nbh, expect, cands, ts, when, sh):
     return True
 
 
+def worker_s(job):
+    """is_synced with the real main_chain_height on fork trees: synced iff (height of the chain get_main_chain serves) + 2 >= the
+    highest announced header; difficulties, stable height and the announced maximum symbolic"""
+    parents, _ = job
+    prog = PROG
+    rep = H.Report(PROP, 'quick')
+    cands = Cands()
+    st = Stats()
+    ts = btc.TreeScenario(parents)
+    seen = set()
+
+    def scenario(it):
+        btc.install(it, STUBS)
+        ts.assume_ranges(it)
+        state, sh, thr = mk_state(it, prog, ts, sh=it.fresh('stable_h', 'u32', 0, (1 << 31)))
+        sref = Ref(Cell(state))
+        it.overrides['with_state'] = lambda it_, k, r, a: it_.call_value(a[0], [sref])
+        has_next = it.choose(2, 'next')
+        mx = it.fresh('next_max', 'u32', 0, None) if has_next else None
+        it.overrides['GenericUnstableBlocks::next_block_headers_max_height'] = lambda it_, k, r, a: (some(mx) if has_next else none())
+        ubref = Ref(sfield(prog, state, 'unstable_blocks'))
+        # the served chain (that it is the heaviest one is C02's subject): its height is what "the best-chain height" means
+        chain = it.call('unstable_blocks::get_main_chain', [ubref])
+        best = btc.chain_ids(chain)
+        r = it.call('is_synced', [])
+        rt = r.t if isinstance(r, SInt) else r
+        height = sh.t + len(best) - 1
+        announced = mx.t if has_next else 0
+        expected = height + 2 >= z3.If(zterm(announced) > height, zterm(announced), height)
+        if isinstance(rt, bool):
+            got = z3.BoolVal(rt)
+        elif isinstance(rt, int):
+            got = z3.BoolVal(rt != 0)
+        elif z3.is_bool(rt):
+            got = rt
+        else:
+            got = rt != 0
+        m = check_unsat(it, rep, got != expected)
+        seen.add(has_next)
+        if m is not None:
+            cands.add(kernel='s', role='synced-verdict-differs-from-served-chain-height-rule', model=m, ts=ts, next_max=(mx.t if has_next else None), stable_height=sh.t,
+                      served_chain=best)
+
+    explore(prog, scenario, stats=st, on_panic=lambda it, e: cands.add(kernel='s', role='trap', ts=ts, model=it.model_ if it.feasible() else None, msg=str(e)[:200]))
+    rep.add_stats(st, 's:synced-on-trees')
+    rep.cov['shapes'] += 1
+    if seen == {0, 1}:
+        rep.cov['witnesses'] += 1
+    return (rep.cov, cands.items, rep.inconclusive)
+
+
+def worker(job):
+    return worker_s(job[1]) if job[0] == 's' else worker_n(job[1])
+
+
 def native_gate(combos):
     scen = [dict(ops=[dict(op='init', network=c['canister_net'].lower(), threshold=2),
                       dict(op='gate', endpoint=c['endpoint'], access=c['access_enabled'], sync_flag=c['sync_flag_enabled'],
@@ -287,6 +342,25 @@ def native_gate(combos):
 
 def confirm(cand, known):
     doc = dict(property=PROP, role=cand['role'], summary={k: v for k, v in cand.items() if k not in ('shape', 'diffs', 'times')}, problems=[])
+    if cand['kernel'] == 's' and cand.get('served_chain'):
+        # the real gate on the real tree: headers are announced on the served chain's tip up to the counterexample's distance
+        ts = btc.TreeScenario(list(cand['shape'][1]))
+        diffs = {int(k): v for k, v in cand['diffs'].items()}
+        best = cand['served_chain']
+        nm, shv = cand.get('next_max'), cand.get('stable_height')
+        k = (nm - (shv + len(best) - 1)) if isinstance(nm, int) and isinstance(shv, int) else 0
+        k = max(0, min(k, 12))
+        extra = ([dict(op='announce', on=best[-1], count=k)] if k > 0 else []) + \
+            [dict(op='main_chain'), dict(op='gate', endpoint='get_balance', access=True, sync_flag=True, request_net='regtest')]
+        res = C.run_native([dict(ops=native_ops(ts, diffs, thr=1000, extra=extra))], tag='c14s')[0]
+        mc, got = res[-2], res[-1]
+        should = 'answered' if k <= 2 else 'refused'
+        doc['native'] = dict(main_chain=mc, announced_above_tip=k, gate=got, rule=should)
+        if got != should:
+            doc['problems'].append('served chain %s (height %s), headers announced up to %d above its tip: get_balance %s, rule: %s' % (
+                mc.get('chain') if isinstance(mc, dict) else mc, len(best) - 1, k, got, should))
+            return 'violation', doc
+        return 'not-reproduced', doc
     if cand['kernel'] == 'g' and cand.get('endpoint') and 'access_enabled' in cand and cand['role'] != 'ungated-endpoint-traps':
         # native replay through the public wrapper (announced headers cannot be scripted natively without mining a chain:
         # the sync part is replayed with no announced header, i.e. "synced")
@@ -347,8 +421,8 @@ def main():
     rep.assumptions = ['std models faithful', 'cycles / charge calls are recorded, any call before a refusal is flagged']
     cands = Cands()
     kernel_gate(prog, rep, cands)
-    jobs = [(p, None) for p in shapes_upto(N)]
-    for part in parallel(jobs, worker_n):
+    jobs = [('n', (p, None)) for p in shapes_upto(N)] + [('s', (p, None)) for p in shapes_upto(N + 2, forks_only_above=4)]
+    for part in parallel(jobs, worker):
         merge_partial(rep, cands, part)
     translator_validation(prog, rep)
     settle(rep, PROP, cands, confirm, H.load_known(PROP), describe=lambda d: str(d.get('summary'))[:300])
